@@ -10,7 +10,10 @@
    run looks at are inside the dependency closure of the selected list (C12_nothing_outside_closure_serial),
    and the selected tasks are examined in the order given except where dependencies require otherwise
    (C12_serial_order: over an acyclic table; false over a cyclic one, C12_serial_order_needs_acyclic).
-   The same order on real runs (delayed tasks included) is checked by harness/c12.py. *)
+   The same order on real runs (delayed tasks included) is checked by harness/c12.py.
+   Section CliStatements (Proofs/CliP.v, over Model/Select.v Section Cli): the command line in front of the selection --
+   no argument that is a name is dropped (the empty string, blanks, near-miss names are names), `x=y` arguments and
+   only those are taken out, default_tasks only when nothing is named, unknown names rejected from the command line down. *)
 From DoitV Require Import Base Select SelectP CliP.
 Open Scope N_scope.
 
